@@ -53,6 +53,10 @@ class _Return(Exception):
         self.v = v
 
 
+class Budget(Exception):
+    """the symbolic evaluation of a generator ran past its step budget (e.g. a large table computed in plain Python at elaboration time)"""
+
+
 class _Dead(Exception):
     """raise statement reached: this configuration arm is invalid."""
 
@@ -150,6 +154,8 @@ def _clone_container(v):
 
 class Elab:
     MAX_DEPTH = 14
+    MAX_SELF_RECURSION = 8
+    MAX_STEPS = 3000000      # the largest elaboration of the pinned tree takes about 2*10^5 steps
     MAX_UNROLL = 300
 
     def __init__(self, repo, overrides=None, hasattrs=None):
@@ -529,6 +535,8 @@ class Elab:
     # ------------------------------------------------------------------------------------------
     def ev(self, n, env):
         self.steps += 1
+        if self.steps > self.MAX_STEPS:
+            raise Budget("more than %d interpreter steps" % self.MAX_STEPS)
         m = getattr(self, "ev_" + type(n).__name__, None)
         if m is None:
             self.unk("expr:" + type(n).__name__, n)
@@ -1372,7 +1380,7 @@ class Elab:
                 if isinstance(a[0], Obj) and a[0].cls == "Signal":
                     return self.width_of(a[0])
                 r = Op("len", (a[0],))
-                if str(r) in self.overrides:
+                if self.overrides and tsize(r) < 200 and str(r) in self.overrides:
                     return self.overrides[str(r)]
                 return r
             if name == "range":
@@ -1655,6 +1663,10 @@ class Elab:
         if self.depth_total() > self.MAX_DEPTH:
             self.unk("depth:" + f.name, n)
             return Op("call", (Sym(f.name),) + tuple(args))
+        # a function recursing on itself past any depth the pinned tree needs (its stop condition is not concrete here)
+        if self.__dict__.setdefault('active', {}).get(f.name, 0) >= self.MAX_SELF_RECURSION:
+            self.unk("recursion:" + f.name, n)
+            return Op("call", (Sym(f.name),) + tuple(args))
         fenv = Env(f.env)
         if f.clsv is not None:
             fenv.set("$class", f.clsv)
@@ -1680,9 +1692,11 @@ class Elab:
         if not flat:
             self.callname.append("%s#%d" % (f.name.split(".")[-1], k))
         ncfg = len(self.cfg)
+        self.active[f.name] = self.active.get(f.name, 0) + 1
         try:
             r = self.run_body(f.node.body, fenv)
         finally:
+            self.active[f.name] -= 1
             del self.cfg[ncfg:]
             if not flat:
                 self.callname.pop()
@@ -1781,6 +1795,8 @@ class Elab:
 
     def st(self, s, env, pending=None):
         self.steps += 1
+        if self.steps > self.MAX_STEPS:
+            raise Budget("more than %d interpreter steps" % self.MAX_STEPS)
         m = getattr(self, "st_" + type(s).__name__, None)
         if m is None:
             self.unk("stmt:" + type(s).__name__, s)
